@@ -788,6 +788,15 @@ class RFFPredictionStrategy(DefaultPredictionStrategy):
 
 
 class SGPRPredictionStrategy(DefaultPredictionStrategy):
+    def __init__(self, train_inputs, train_prior_dist, train_labels, likelihood):
+        super().__init__(train_inputs, train_prior_dist, train_labels, likelihood)
+        # The train-train covariance (and every cache derived from it) depends on this setting
+        self._sgpr_diagonal_correction = settings.sgpr_diagonal_correction.on()
+
+    @property
+    def is_stale(self):
+        return self._sgpr_diagonal_correction != settings.sgpr_diagonal_correction.on()
+
     @property
     @cached(name="covar_cache")
     def covar_cache(self):
